@@ -1136,7 +1136,8 @@ class RotationGate(Gate):
         Generate a tensor network representation of the gate.
         """
         # require a unique name for each rotation angle
-        return TensorNetwork.wrap(self.as_matrix(), f"Rn({self.ntheta})")
+        # (str() of an array abbreviates to 8 digits: nearly equal vectors would share a name but not their data)
+        return TensorNetwork.wrap(self.as_matrix(), f"Rn({self.ntheta.tolist()})")
 
     def as_qasm(self):
         """
